@@ -29,7 +29,7 @@ def exhaustive(tier):
 
 
 def required(tier):
-    return ["all_32_lane_sets", "gap:1", "chord_as_last_group", "interleave:between", "group_lines:7", "group_lines:1", "concurrent_stage", "ticks_around_2^31..10^12"]
+    return ["all_32_lane_sets", "gap:1", "chord_as_last_group", "interleave:between", "group_lines:7", "group_lines:1", "concurrent_stage", "ticks_around_2^31..10^12", "parsed_with_selection_of_all_tracks"]
 
 
 def shards(tier, seed):
@@ -115,7 +115,10 @@ def run_shard(shard, rec, tier, seed):
             else:
                 case = gen.gen_chart(rng, "hostile" if i % 2 else "realistic", n_tracks=rng.choice([1, 2, 3]),
                                      n_groups=rng.choice([1, 2, 5, 30, 120, 400]), pad=i % 3 == 0)
-            out, ob, d = mcheck.judge(rec, ("C02",), case)
+            sel = mcheck.all_present(case, rng) if i % 5 == 3 else None
+            if sel is not None:
+                rec.cls("parsed_with_selection_of_all_tracks")
+            out, ob, d = mcheck.judge(rec, ("C02",), case, want=sel)
             keep.add(case)
             if d is not None and not d.of("C02"):
                 note_classes(rec, case["truth"])
